@@ -246,7 +246,7 @@ fn verif_sweep_c08_c05_every_way_a_connection_ends() {
         for &channels in &[0usize, 2] {
             for &consumers in &[0usize, 2] {
                 for &call_in_flight in &[false, true] {
-                    run(end, channels, consumers, call_in_flight);
+                    with_watchdog(format!("{:?} channels={} consumers={} call_in_flight={}", end, channels, consumers, call_in_flight), 60, move || run(end, channels, consumers, call_in_flight));
                     count += 1;
                 }
             }
